@@ -269,7 +269,7 @@ def postAct (S : SF) (cfg : Cfg) (ex : String → Extract) (i : Info) (dnr : Int
                      redirects := i.redirects + 1, hops := i.hops }
   else if !cfg.domainsCrawl && S.depthCutOp.eval dnr (S.depthCut : Int) then .complete
   else if !cfg.domainsCrawl && dnr == 1 && i.html then .complete
-  else if cfg.disableAssets && !cfg.domainsCrawl then .complete
+  else if cfg.disableAssets && !cfg.domainsCrawl && (S.disableAssetsRule == "always" || cfg.maxHops == 0) then .complete
   else if i.resp == 200 then
     let e := ex i.id
     let extractAssets := !cfg.disableAssets && i.body
